@@ -68,24 +68,29 @@ Proof.
     (conj (GenSamplerEq.source_set_uniform_u32 n m P tape data0 HPl Ht Hd Hs Hn) (GenSamplerEq.source_set_uniform_u64 n m P tape data0 HPl Ht Hd Hs Hn))).
 Qed.
 Print Assumptions C09_source_set_uniform.
-(* poly::set(non_uniform const&) of the source (32- and 64-bit limbs): the range check (which throws exactly when the bound reaches a
+(* poly::set(non_uniform const&) of the source (all three limb types): the range check (which throws exactly when the bound reaches a
    modulus: no result), the bit-length loop of the mask, the reduction and centring of each word, the amplifier, the column-wise writes
    _data[degree*cm + i] -- the translated function writes exactly SamplersExec.set_bounded, for any degree, number of moduli, bound,
-   amplifier and tape.  (The 16-bit instance is translated and compared; its promoted arithmetic is not proved.) *)
+   amplifier and tape.  16-bit limbs: `rnd[i] & mask` and `P[cm] + tmp` are evaluated in the promoted type int, overflow being "no
+   result": it never happens. *)
 Theorem C09_source_set_bounded : forall n m P tape data0 B A fuel, 1 <= B -> (m <= length P)%nat -> List.Forall (fun x => 0 <= x < 256) tape ->
   length data0 = (m * n)%nat -> Z.of_nat (m * n) < 2 ^ 61 -> (0 < n)%nat -> (0 < m)%nat -> (64 < fuel)%nat -> 0 <= A < 2 ^ 64 -> List.Forall (fun p => B < p) (List.firstn m P) ->
-  (2 * B - 1 < 2 ^ 31 -> (n * 4 <= length tape)%nat ->
+  (2 * B - 1 < 2 ^ 15 -> (n * 2 <= length tape)%nat -> List.Forall (fun p => 0 <= p < 2 ^ 16) (List.firstn m P) ->
+     option_map snd (GenLoop.gen_set_bounded_u16 fuel (Z.of_nat n) data0 B A (Z.of_nat m) P tape) = set_bounded 16 n (List.firstn m P) B A tape) /\
+  (2 * B - 1 < 2 ^ 31 -> (n * 4 <= length tape)%nat -> List.Forall (fun p => 0 <= p < 2 ^ 32) (List.firstn m P) ->
      option_map snd (GenLoop.gen_set_bounded_u32 fuel (Z.of_nat n) data0 B A (Z.of_nat m) P tape) = set_bounded 32 n (List.firstn m P) B A tape) /\
-  (2 * B - 1 < 2 ^ 63 -> (n * 8 <= length tape)%nat ->
+  (2 * B - 1 < 2 ^ 63 -> (n * 8 <= length tape)%nat -> List.Forall (fun p => 0 <= p < 2 ^ 64) (List.firstn m P) ->
      option_map snd (GenLoop.gen_set_bounded_u64 fuel (Z.of_nat n) data0 B A (Z.of_nat m) P tape) = set_bounded 64 n (List.firstn m P) B A tape).
 Proof.
   exact (fun n m P tape data0 B A fuel HB HPl Ht Hd Hs Hn Hm Hf HA HBp =>
-    conj (fun Hc Htl => GenBoundedEq.source_set_bounded_u32 n m P tape data0 B A HB Hc HPl Htl Ht Hd Hs Hn Hm fuel Hf HA HBp)
-         (fun Hc Htl => GenBoundedEq.source_set_bounded_u64 n m P tape data0 B A HB Hc HPl Htl Ht Hd Hs Hn Hm fuel Hf HA HBp)).
+    conj (fun Hc Htl HPr => GenBoundedEq.source_set_bounded_u16 n m P tape data0 B A HB Hc HPl Htl Ht Hd Hs Hn Hm HPr fuel Hf HA HBp)
+   (conj (fun Hc Htl HPr => GenBoundedEq.source_set_bounded_u32 n m P tape data0 B A HB Hc HPl Htl Ht Hd Hs Hn Hm HPr fuel Hf HA HBp)
+         (fun Hc Htl HPr => GenBoundedEq.source_set_bounded_u64 n m P tape data0 B A HB Hc HPl Htl Ht Hd Hs Hn Hm HPr fuel Hf HA HBp))).
 Qed.
 Print Assumptions C09_source_set_bounded.
 Theorem C09_source_set_bounded_throws : forall n m P tape data0 B A fuel, Z.of_nat m < 2 ^ 61 -> (exists cm, (cm < m)%nat /\ List.nth cm P 0 <= B) ->
-  GenLoop.gen_set_bounded_u32 fuel n data0 B A (Z.of_nat m) P tape = None /\ GenLoop.gen_set_bounded_u64 fuel n data0 B A (Z.of_nat m) P tape = None.
+  GenLoop.gen_set_bounded_u16 fuel n data0 B A (Z.of_nat m) P tape = None /\ GenLoop.gen_set_bounded_u32 fuel n data0 B A (Z.of_nat m) P tape = None /\
+  GenLoop.gen_set_bounded_u64 fuel n data0 B A (Z.of_nat m) P tape = None.
 Proof. exact GenBoundedEq.source_set_bounded_throws. Qed.
 Print Assumptions C09_source_set_bounded_throws.
 
